@@ -465,6 +465,11 @@ func runC02(c *Ctx) {
 	// ---- R6 one engine per module
 	c.rule("C02-R6", "MPT: in cmd/glyph.setupRoutes registerCompiledRoute is reachable only on the useCompiler==true edge tested after the compile loop; a route with provider injections, and a non-semantic compile error, both clear useCompiler (whole module falls back to the interpreter: no mixed registration)")
 	if sr := c.mustFn("C02-R6", glyphCmd, "setupRoutes"); sr != nil {
+		// the engine flag is setupRoutes' first (boolean) result, whatever it is called
+		flag := "useCompiler"
+		if res := sr.Signature.Results(); res.Len() > 0 && res.At(0).Name() != "" && res.At(0).Type().String() == "bool" {
+			flag = res.At(0).Name()
+		}
 		n := 0
 		eachInstr(sr, func(_ *ssa.BasicBlock, _ int, ins ssa.Instruction) {
 			if !isCallTo(ins, modPath+"/cmd/glyph.registerCompiledRoute") {
@@ -478,7 +483,7 @@ func runC02(c *Ctx) {
 				if iff == nil || !b.Dominates(ins.Block()) || !b.Succs[0].Dominates(ins.Block()) {
 					continue
 				}
-				if isBoolVarNamed(iff.Cond, "useCompiler") {
+				if isBoolVarNamed(iff.Cond, flag) {
 					dom = true
 				}
 			}
@@ -494,11 +499,11 @@ func runC02(c *Ctx) {
 		eachInstr(sr, func(_ *ssa.BasicBlock, _ int, ins ssa.Instruction) {
 			switch x := ins.(type) {
 			case *ssa.Store:
-				if al, ok := x.Addr.(*ssa.Alloc); ok && al.Comment == "useCompiler" && isConstBool(x.Val, false) {
+				if al, ok := x.Addr.(*ssa.Alloc); ok && al.Comment == flag && isConstBool(x.Val, false) {
 					clearBlocks = append(clearBlocks, x.Block())
 				}
 			case *ssa.Phi:
-				if x.Comment == "useCompiler" {
+				if x.Comment == flag {
 					for i, e := range x.Edges {
 						if isConstBool(e, false) {
 							clearBlocks = append(clearBlocks, x.Block().Preds[i])
